@@ -229,7 +229,7 @@ def check_match_loop(repo, rep, tier):
         total += 1
         rep.instance("C02-R2", desc, sample if total % 400 == 1 else None)
         for rid, key, msg in viols:
-            if rid.startswith("C02") or key.split("|")[1] in ("raises", "double-fill", "spurious"):
+            if rid.startswith("C02") or key.split("|")[1] in ("raises", "double-fill", "spurious", "nonterminating"):
                 rep.violation("C02-R2" if not rid.startswith("C02") else rid, "|".join(key.split("|")[:2]), msg, {"ordering": desc})
     rep.floor("C02-R2", 500)
 
@@ -397,12 +397,12 @@ def run(repo: Repo, rep, tier: str):
     rep.exhaustive = True
     rep.assume("backtest mode predicates (is_live False, ...) are constants of the session")
     rep.assume("hooks, exchange ledgers and candle storage are abstract event sinks in the matching-loop runs")
-    check_includes(repo, rep)
-    check_jump_fix(repo, rep)
-    check_loop_protocol(repo, rep)
-    check_match_loop(repo, rep, tier)
-    check_market_orders(repo, rep)
-    check_field_writers(repo, rep)
+    rep.guarded(check_includes, repo, rep)
+    rep.guarded(check_jump_fix, repo, rep)
+    rep.guarded(check_loop_protocol, repo, rep)
+    rep.guarded(check_match_loop, repo, rep, tier)
+    rep.guarded(check_market_orders, repo, rep)
+    rep.guarded(check_field_writers, repo, rep)
     rep.undecided_item("exact fill minute of an order inside a fast-mode chunk (see C12)")
     rep.undecided_item("more than 3 simultaneously touched resting orders with cascaded reactions")
 
